@@ -70,6 +70,7 @@ type interpreter struct {
 	Enumerated      int64
 	held            map[*value]int
 	maxConcOverride int
+	jsonDecoders    map[*value]*nativeDecoder
 
 	// statistics (per worker, merged by the driver)
 	FuncInstrs map[*ssa.Function]int64
